@@ -186,32 +186,43 @@ def c08(run, args):
     # the contract with every cap x limit combination, all eviction properties as action properties
     run.model_check("MCMailstore", MC_CFG % dict(caps="0, 1, 2", limits="0, 3, 5", maxadds=3 if quick else 4), label="MCMailstore(caps x limits)")
     # size unit 300 bytes: sizes 300/600/900; limits 1 KiB and 2 KiB; caps 0..3
-    bfs = run.generate("GenMailstore", gen_cfg(2, [1, 2, 3], [1], 4 if quick else 5, scan=False, seen=False))
-    sim = run.generate("GenMailstore", gen_cfg(3, [1, 2, 3], [1], 120 if quick else 400, scan=False, seen=False),
-                       simulate={"num": 100, "depth": 121 if quick else 401})
-    sim = sim[:60 if quick else 600]
-    count_distinct(run, bfs + sim)
+    bfs = run.generate("GenMailstore", gen_cfg(2, [1, 2, 3], [1], 4, scan=False, seen=False))
+    # thorough: every depth-4 sequence under EVERY cap x limit combination, plus a seed-chosen sample of the depth-5 sequences
+    # (all of them would be ~40 M trace events) under two rotating combinations each
+    bfs5 = []
+    if not quick:
+        bfs5 = run.generate("GenMailstore", gen_cfg(2, [1, 2, 3], [1], 5, scan=False, seen=False))
+        bfs5 = [b for b in bfs5 if len(b) == 5]
+        rng.shuffle(bfs5)
+        bfs5 = bfs5[:20000]
+    sim = run.generate("GenMailstore", gen_cfg(3, [1, 2, 3], [1], 120 if quick else 300, scan=False, seen=False),
+                       simulate={"num": 100, "depth": 121 if quick else 301})
+    sim = sim[:60 if quick else 240]
+    count_distinct(run, bfs + bfs5 + sim)
     run.cov["exhaustive"] = True
     caps = [0, 1, 2, 3]
     mem_cfgs = [(c, k) for c in caps for k in (0, 1, 2)]
     file_cfgs = [(c, 0) for c in caps]
 
-    def cfgs_for(i, st):
+    def rotating(i, st, n=2):
         all_ = mem_cfgs if st == "mem" else file_cfgs
-        if not quick:
-            return all_
-        # quick: two configurations per behaviour and store, rotating so that all are covered
-        return [all_[(i + run.seed) % len(all_)], all_[(i * 7 + 3 + run.seed) % len(all_)]]
+        return [all_[(i * (1 + 6 * j) + 3 * j + run.seed) % len(all_)] for j in range(n)]
+
+    def cfgs_for(i, st):
+        # quick: two configurations per behaviour and store, rotating so that all are covered; thorough: all
+        return rotating(i, st) if quick else (mem_cfgs if st == "mem" else file_cfgs)
 
     beh = concretise(run, bfs, ["mem", "file"], cfgs_for, 300, rng, "bfs")
-    beh += concretise(run, sim, ["mem", "file"], lambda i, st: (mem_cfgs if st == "mem" else file_cfgs), 300, rng, "sim", probe_every=10)
+    beh += concretise(run, bfs5, ["mem", "file"], rotating, 300, rng, "bfs5")
+    beh += concretise(run, sim, ["mem", "file"], (lambda i, st: (mem_cfgs if st == "mem" else file_cfgs)) if quick else (lambda i, st: rotating(i, st, 4)),
+                      300, rng, "sim", probe_every=10)
     run.cov["samples"] = [bfs[len(bfs) // 3], sim[0][:12]] if bfs and sim else []
     replay_and_validate(run, vh, beh, "c08", "C08 cap/size-limit eviction")
     run.cov["rule"] = ("TLC enumerates every add/remove/purge sequence (sizes 300/600/900 bytes, 2 mailboxes) up to the stated depth and simulates long "
                        "histories (drift); each runs on the memory store under cap x maxkb in {0,1,2,3} x {0,1,2 KiB} and on the file store under each cap; "
                        "after every operation the whole store must equal the contract state (most recent messages kept, globally oldest-first size eviction, "
                        "only as much as necessary, new message retrievable).  non-trivial/distinct as in C07")
-    run.assumptions += ["sizes within the exact byte accounting of the store (Size() == len(source))", "quick tier runs two of the cap x limit combinations per enumerated sequence (rotating), thorough all"]
+    run.assumptions += ["sizes within the exact byte accounting of the store (Size() == len(source))", "quick tier runs two of the cap x limit combinations per enumerated sequence (rotating), thorough all for depth <= 4 and two (rotating) for a sample of 20000 depth-5 sequences"]
 
 
 # --------------------------------------------------------------------------- C10
